@@ -170,6 +170,9 @@ class GlomError(Exception):
         if set(self._tb_lines[0]) <= {' ', '^', '~'}:
             self._tb_lines = self._tb_lines[1:]
         self._scope = scope
+        # a copy of an error that was already rendered (e.g. logged by a
+        # callable before it propagated) must render this call's trace
+        self._finalized_str = None
 
     def __str__(self):
         if getattr(self, '_finalized_str', None):
